@@ -33,12 +33,13 @@ EXPLANATION = (
     "LD - Antecedent.load and Consequent.load themselves are interpreted abstractly on an engine with two variables and their own terms "
     "and compared with the grammar automata (acceptance, SyntaxError, no internal error, propositions / hedges / terms / operators built, "
     "terms taken from the proposition's own variable); Rule.parse stays on the extracted state machine"
+    "; the variable and rule-block importers are interpreted on two-line model blocks (every key x six values) with the value parsers, helpers and property setters: imported or rejected with a syntax / value / lookup error (X9)"
 )
 ASSUMPTIONS = [
     "token classes are disjoint (a token is not at once a keyword, a variable name, a hedge name and a term name)",
     "resource exhaustion (recursion depth of very long antecedents) is not decided",
 ]
-FLOORS = {"X8": 6, "PD": 4, "PD2": 4, "LD": 8, "F1": 2, "F-end": 1, "X2": 30, "X4": 6, "O9": 4}
+FLOORS = {"X9": 3, "X8": 6, "PD": 4, "PD2": 4, "LD": 8, "F1": 2, "F-end": 1, "X2": 30, "X4": 6, "O9": 4}
 
 ALLOWED = {"SyntaxError", "ValueError", "KeyError", "LookupError"}
 
@@ -146,13 +147,15 @@ def token_loop(r: Resolver):
     raise AnalysisError(f"{r.fn.qualname}: token loop (for token in <text>.split()) not found")
 
 
-def tokenisers(check: Check, rule: str = "X8") -> None:
+def tokenisers(check: Check, rule: str = "X8", only: tuple[str, ...] | None = None) -> None:
     """X8: every parser of rule text separates tokens at *any* run of whitespace (`str.split()` without a separator, or a `\\s+`
     regular expression): the rule grammar and the readiness check (which looks for ` and ` / ` or ` in the normalised text) are
     stated for whitespace-separated tokens, so a tokeniser that splits on the space character only reads `a\tand\tb` as one token in
     one place and as three in another."""
     p = check.program
     for qual in ("Rule.parse", "Antecedent.load", "Consequent.load", "Function.infix_to_postfix", "Function.parse"):
+        if only is not None and qual not in only:
+            continue
         fn = p.func(qual)
         check.analysed(fn)
         r = Resolver(p, fn)
@@ -872,8 +875,98 @@ def run(check: Check) -> None:
     loaders.loader(check, "Consequent.load")
     exception_discipline(check)
     tokenisers(check)
+    importer_blocks(check)
     pushdown.infix_to_postfix(check)
     pushdown.parse_postfix(check)
     constant_subscripts(check)
     load_atomicity(check)
     check.exhaustive_parts += ["parser automata: product with the grammar automaton over all token classes and end states"]
+
+
+# ------------------------------------------------------------------------------------------------ X9 importer blocks by interpretation
+CLEAN_ERRORS = {"SyntaxError", "ValueError", "KeyError", "LookupError"}
+INTERNAL_ERRORS = {"TypeError", "AttributeError", "IndexError", "RecursionError", "UnboundLocalError", "NameError", "ZeroDivisionError", "AssertionError"}
+
+
+def importer_blocks(check: Check, rule: str = "X9") -> None:
+    """X9 [E on the model blocks]: `FllImporter.input_variable`, `output_variable` and `rule_block` are interpreted (sa/absexec.py) on blocks of two
+    concrete lines - the header and one `key: value` line - for every key the method distinguishes (the string constants it compares the key
+    with, plus an unknown key) and the values "", "x", "1", "1 2", "1 2 3", "true": the parsers of the values (`boolean`, `range`, ...), the
+    module-level helpers and the property setters the value is handed to are interpreted with it. Every such block must either be imported
+    or be rejected with a syntax, value or lookup error; a TypeError, AttributeError or IndexError on some block is an internal error.
+    What the model does not reach (the term, norm, activation and defuzzifier factories: rule X4 and the factories' own rules) is skipped;
+    a (key, value) the interpreter cannot follow is counted as undecided, never as an alarm."""
+    from ..absexec import AbsExec, Internal, MObj, Opaque, Raised, Unknown, _Return
+    from .common import static_resolver
+
+    p = check.program
+    imp = p.cls("FllImporter")
+    resolver = static_resolver(p)
+    values = ["", "x", "1", "1 2", "1 2 3", "true"]
+    decided = undecided = 0
+    bad: dict[str, str] = {}
+    skip = {"term", "activation", "defuzzifier", "tnorm", "snorm", "component", "rule"}
+
+    def make(cls: str):  # type: ignore[no-untyped-def]
+        def construct(ex_, e, args, kw):
+            ci = p.cls(cls)
+            o = MObj(cls, {"name": "", "description": "", "enabled": True, "minimum": float("-inf"), "maximum": float("inf"), "lock_range": False, "terms": [],
+                           "rules": [], "conjunction": None, "disjunction": None, "implication": None, "activation": None, "default_value": float("nan"),
+                           "lock_previous": False, "defuzzifier": None, "fuzzy": MObj("Aggregated", {"terms": [], "aggregation": None, "minimum": 0.0, "maximum": 0.0}),
+                           "__class__": MObj("class", {"__name__": cls}), "__bases__": tuple(c.name for c in ci.mro[1:])})
+            return o
+        return construct
+
+    for mname, header in (("input_variable", "InputVariable"), ("output_variable", "OutputVariable"), ("rule_block", "RuleBlock")):
+        fn = imp.methods.get(mname)
+        if fn is None:
+            raise AnalysisError(f"anchor vanished: FllImporter.{mname}")
+        check.analysed(fn)
+        node = fn.node
+        params = [a.arg for a in node.args.args]
+        keys = sorted({c.value for x in ast.walk(node) if isinstance(x, ast.Compare) for c in [x.left] + list(x.comparators)
+                       if isinstance(c, ast.Constant) and isinstance(c.value, str) and c.value and c.value != header and " " not in c.value}) + ["no-such-key"]
+        for key in keys:
+            for val in values:
+                lines = [f"{header}: v", f"  {key}: {val}"]
+                hooks = {"method:strip_comments": lambda ex_, e, recv, args, kw: args[0],
+                         "method:as_identifier": lambda ex_, e, recv, args, kw: args[0]}
+                for nm in skip:
+                    hooks[f"method:{nm}"] = lambda ex_, e, recv, args, kw: Opaque("component")
+                ex = AbsExec(fn.qualname, hooks, helpers={k: v for k, v in imp.methods.items() if k not in skip and k != mname})
+                ex.concrete_strings = True
+                ex.static_resolver = resolver
+                ex.function_resolver = lambda nm_: p.functions.get(nm_) if nm_ in p.functions and "." not in nm_ else None
+                ex.globals = {"InputVariable": make("InputVariable"), "OutputVariable": make("OutputVariable"), "RuleBlock": make("RuleBlock"), "Op": Opaque("Op"),
+                              "nan": float("nan"), "inf": float("inf")}
+                for cname in ("InputVariable", "OutputVariable", "RuleBlock"):
+                    ci = p.cls(cname)
+                    for c in ci.mro:
+                        for g, getter in c.getters.items():
+                            ex.properties.setdefault((cname, g), (getter, c.setters.get(g)))
+                me = MObj("FllImporter", {"separator": "\n"})
+                text = "\n".join(lines)
+                try:
+                    ex.block(list(node.body), {params[0]: me, params[1]: text, **({params[2]: None} if len(params) > 2 else {})})
+                    outcome = None
+                except _Return:
+                    outcome = None
+                except Raised as r_:
+                    outcome = r_.cls
+                except Internal as i_:
+                    outcome = "!" + i_.cls
+                except (Unknown, AnalysisError):
+                    undecided += 1
+                    continue
+                decided += 1
+                cls_ = (outcome or "").lstrip("!")
+                if outcome is not None and (outcome.startswith("!") or cls_ in INTERNAL_ERRORS or cls_ not in CLEAN_ERRORS):
+                    bad.setdefault(f"FllImporter.{mname}/{key}", f"the block {lines!r} is neither imported nor rejected cleanly: it fails with {cls_} "
+                                   "(an internal error; specified: SyntaxError, ValueError or a lookup error)")
+        construct = f"FllImporter.{mname}"
+        hits = [v for k, v in bad.items() if k.startswith(construct + "/")]
+        check.require(not hits, rule, construct + "/blocks", f"every model block is imported or rejected with a syntax / value / lookup error ({len(keys)} keys x {len(values)} values)"
+                      if not hits else hits[0], loc(fn), {"keys": keys}, exhaustive=True, cases=len(keys) * len(values))
+    check.notes.append(f"{rule}: {decided} (key, value) blocks decided, {undecided} outside the interpreter's model")
+    if decided < 60:
+        raise AnalysisError(f"{rule}: only {decided} model blocks could be interpreted (the importer is no longer within the interpreter's model)")
